@@ -551,18 +551,20 @@ func (conn *obfs4Conn) Write(b []byte) (int, error) {
 					// meaningful write length, resample.
 					continue
 				}
-				if frameBuf.Len() < targetLen {
+				if padLen := targetLen - frameBuf.Len(); padLen > 0 {
 					// There's not enough data buffered for the target write,
-					// so padding must be inserted.
-					if err = conn.padBurst(&frameBuf, targetLen); err != nil {
-						return 0, err
+					// so padding must be inserted.  A frame can not be
+					// shorter than its header, so when the shortfall is too
+					// small to be a frame of its own, pad up to a further
+					// multiple of the target instead.  (Padding modulo the
+					// segment length and resampling never terminates when
+					// the length table has a single value that keeps
+					// leaving the same shortfall.)
+					for padLen <= headerLength {
+						padLen += targetLen
 					}
-					if frameBuf.Len() != targetLen {
-						// Ugh, padding came out to a value that required more
-						// than one frame, this is relatively unlikely so just
-						// resample since there's enough data to ensure that
-						// the next sample will be written.
-						continue
+					if err = conn.padExactly(&frameBuf, padLen); err != nil {
+						return 0, err
 					}
 				}
 				iatWrLen, err = frameBuf.Read(iatFrame[:targetLen])
@@ -615,6 +617,20 @@ func (conn *obfs4Conn) closeAfterDelay(sf *obfs4ServerFactory, startTime time.Ti
 	// Consume and discard data on this connection until the specified interval
 	// passes.
 	_, _ = io.Copy(io.Discard, conn.Conn)
+}
+
+// padExactly appends exactly padLen bytes of padding only frames to the burst.
+// padLen must be greater than headerLength, and at most one maximum sized
+// frame beyond it.
+func (conn *obfs4Conn) padExactly(burst *bytes.Buffer, padLen int) error {
+	if padLen > framing.MaximumSegmentLength {
+		// Too long for a single frame, split off a minimum sized one.
+		if err := conn.makePacket(burst, packetTypePayload, []byte{}, 1); err != nil {
+			return err
+		}
+		padLen -= headerLength + 1
+	}
+	return conn.makePacket(burst, packetTypePayload, []byte{}, uint16(padLen-headerLength))
 }
 
 func (conn *obfs4Conn) padBurst(burst *bytes.Buffer, toPadTo int) error {
